@@ -144,4 +144,109 @@ theorem addTextNode_normal (P : Parser) (w : WState) (base : List NodeCtx) (cx :
     · exact this x (.inl hx)
     · subst hx; exact this cx (.inr rfl)
 
+/-! ### the finish of a complete context, the start and the close of an element read back as a node -/
+
+
+theorem stripTrailingSpace_id (s : List Nat) (h : endsWithSpace s = false) : stripTrailingSpace s = s := by
+  unfold stripTrailingSpace
+  unfold endsWithSpace at h
+  rw [← List.head?_reverse] at h
+  cases hr : s.reverse with
+  | nil => simp at hr; simp [hr]
+  | cons x r =>
+    rw [hr] at h
+    simp at h
+    have : (x :: r).dropWhile isHtmlSpace = x :: r := by simp [List.dropWhile, h]
+    rw [this, ← hr, List.reverse_reverse]
+
+theorem stripLast_id (opts : Opts) (content : List Node) (h : lastOk opts content = true) (hp : opts.preserveWs = false) :
+    stripLast content = content := by
+  unfold lastOk at h
+  simp only [hp, Bool.false_or] at h
+  unfold stripLast
+  cases hl : content.getLast? with
+  | none => rfl
+  | some n =>
+    rw [hl] at h
+    cases n with
+    | text s m =>
+      simp only at h ⊢
+      have : endsWithSpace s = false := by simpa using h
+      rw [stripTrailingSpace_id s this]
+      simp
+    | leaf => rfl
+    | elem => rfl
+
+/-- the finish of a context whose content is complete and normal gives the node back -/
+theorem finishNode_plain (S : Schema) (cx : NodeCtx) (t : TypeId) (q : Nat) (a : Attrs)
+    (hm : cx.mtch = some q) (hty : cx.ty = some t) (hv : (S.dfa t).validEnd q = true)
+    (ha : computeAttrs (S.nodeType t).attrs (cx.attrs.getD []) = .ok a) (hmk : cx.marks = [])
+    (hnl : (S.nodeType t).isLeaf = false) (hlast : lastOk cx.opts cx.content = true) (hnorm : fnorm cx.content = true) :
+    cx.finishNode S false t = .ok (.elem t a [] cx.content) := by
+  have hc : (if cx.opts.preserveWs then cx.content else stripLast cx.content) = cx.content := by
+    cases hp : cx.opts.preserveWs with
+    | true => rfl
+    | false => simp [stripLast_id cx.opts cx.content hlast hp]
+  unfold NodeCtx.finishNode NodeCtx.finishContent
+  simp only [hc, fromArray_of_fnorm hnorm, hm, hty, fillNodes_validEnd S _ q hv, fappend, ha, mkNode, hnl, hmk]
+  rfl
+
+
+
+/-- the start of an element read back as a (non-leaf) node: `enter`, directly below the open context -/
+theorem ruleOpen_node (P : Parser) (w : WState) (base : List NodeCtx) (cx : NodeCtx) (ext : List NodeCtx) (c : List Node)
+    (t : TypeId) (q q' : Nat) (tc : TypeId) (ra : Option Attrs) (a : Attrs) (tag : String) (r : TagRule)
+    (hi : Inv P.S w base cx ext c) (hp : Plain cx t q) (hr : r.node = some (some tc)) (hnl : (P.S.nodeType tc).isLeaf = false)
+    (hm : (P.S.dfa t).matchType q tc = some q') (ha : computeAttrs (P.S.nodeType tc).attrs (ra.getD []) = .ok a) :
+    ruleOpen P w tag r ra =
+      .ok (afterEnter w ((base ++ [{ cx with content := c, mtch := some q' }]) ++ [newCtx P tc ra r.preserveWs cx.opts w.st.fresh])
+             (base.length + 1) (.enter tc ra r.preserveWs), ⟨true, none, false, w.st.fresh⟩) := by
+  have htop : (afterEnter w ((base ++ [{ cx with content := c, mtch := some q' }]) ++ [newCtx P tc ra r.preserveWs cx.opts w.st.fresh])
+      (base.length + 1) (.enter tc ra r.preserveWs)).top = some (newCtx P tc ra r.preserveWs cx.opts w.st.fresh) := by
+    unfold WState.top afterEnter
+    have := getElem?_base (base ++ [{ cx with content := c, mtch := some q' }]) (newCtx P tc ra r.preserveWs cx.opts w.st.fresh) []
+    simp only [List.length_append, List.length_singleton] at this
+    exact this
+  unfold ruleOpen ruleFirst
+  simp only [hr, hnl, Bool.not_false, if_true, emit_enter P w base cx ext c t q q' tc ra r.preserveWs a hi hp hm ha,
+    Option.getD_some, htop]
+  rfl
+
+/-- … and the state it leaves satisfies the invariant of the walk one level deeper, with a fresh plain context -/
+theorem afterEnter_inv (P : Parser) (w : WState) (base : List NodeCtx) (cx : NodeCtx) (ext : List NodeCtx) (c : List Node)
+    (q' : Nat) (tc : TypeId) (ra : Option Attrs) (pw : WS) (e : Event) (hi : Inv P.S w base cx ext c) :
+    Inv P.S (afterEnter w ((base ++ [{ cx with content := c, mtch := some q' }]) ++ [newCtx P tc ra pw cx.opts w.st.fresh])
+      (base.length + 1) e) (base ++ [{ cx with content := c, mtch := some q' }]) (newCtx P tc ra pw cx.opts w.st.fresh) [] [] ∧
+    Plain (newCtx P tc ra pw cx.opts w.st.fresh) tc 0 := by
+  refine ⟨⟨rfl, by simp [afterEnter], settles_nil _ _, ?_⟩, ?_⟩
+  · intro x hx
+    have := hi.fresh
+    simp only [List.mem_append, List.mem_singleton, afterEnter] at hx this ⊢
+    rcases hx with (hx | hx) | hx
+    · exact Nat.lt_succ_of_lt (this x (.inl hx))
+    · subst hx; exact Nat.lt_succ_of_lt (this cx (.inr rfl))
+    · subst hx; simp [newCtx]
+  · refine ⟨rfl, ?_, rfl, rfl, rfl, rfl, ?_⟩
+    · simp [newCtx, NodeCtx.new, wsOptionsFor_openLeft]
+    · simp [newCtx, NodeCtx.new, wsOptionsFor_openLeft]
+
+
+
+/-- the close of an element read back as a node: `sync(start_in)` finds the node's context (by identity) at the open
+    depth and steps out of it; the context stays on the stack until the next `close_extra` -/
+theorem ruleClose_sync (P : Parser) (w : WState) (pre : List NodeCtx) (N : NodeCtx) (ext : List NodeCtx)
+    (hn : w.st.nodes = pre ++ N :: ext) (ho : w.st.open_ = pre.length) (hpre : ∀ x ∈ pre, (x.uid == N.uid) = false) :
+    ∃ w', ruleClose P w ⟨true, none, false, N.uid⟩ = .ok w' ∧ w'.st.nodes = w.st.nodes ∧ w'.st.open_ = pre.length - 1 ∧
+      w'.st.fresh = w.st.fresh := by
+  have hidx : w.idxOf N.uid = some pre.length := by
+    unfold WState.idxOf
+    rw [hn]
+    exact findIdx?_base _ pre N ext hpre (by simp)
+  refine ⟨{ w with st := { w.st with open_ := pre.length - 1 },
+                   log := w.log ++ [.sync (some pre.length), .setOpen (pre.length - 1)] }, ?_, rfl, rfl, rfl⟩
+  unfold ruleClose
+  simp only [if_true, emit, emit', PState.step, hidx, PState.sync, ho, Nat.le_refl, Option.getD_some]
+  simp [List.append_assoc]
+
+
 end PM.RoundTrip
